@@ -1,21 +1,28 @@
 (* Props/C08.v — No cell ever stores a non-finite number.  Statements only.
-   The claim covers all built-in functions because it is about the SINK every result goes
-   through (set_cells_with_result = [write]), not about the functions.
-   History: the array branches and the 1x1 coercion (F09, F09b) were repaired by /repo e9b497e, the
-   typed path (F08, F08c) by /repo 6e3cec0; the former refutations are the examples at the end.
-   What this file does NOT cover, and what is still violated in the implementation: the public API
-   Model::update_cell_with_number, which stores the f64 it is given (F08b), and the xlsx importer,
-   which stores a non-finite <v> (F08d).  Neither goes through [write] or [type_number]; both are
-   reported by the harness (known classes api_number_unchecked, xlsx_import_nonfinite). *)
+   The claim covers all built-in functions because it is about the SINKS, not about the functions:
+   a number becomes the content of a cell through exactly four entry points, each modelled in
+   Eval/Store.v and each proved to keep a store free of non-finite numbers:
+     (1) set_cells_with_result = [write]   — every formula result, scalar or array  (C08_sink)
+     (2) set_user_input's number path = [type_number]                               (C08_typed)
+     (3) the public API Model::update_cell_with_number = [api_set_number]           (C08_api)
+     (4) the xlsx importer's <v> conversion = [import_number] / [import_cell]       (C08_import)
+   That these are ALL the construction sites of a numeric cell value is tied by the source inventory
+   of lib/c08.py (a new site is a broken tie); undo/redo and paste copy cells that are already stored.
+   History: all were violated when this file was first written — (1) array branches and 1x1 coercion
+   (F09, F09b; /repo e9b497e), (2) F08, F08c (/repo 6e3cec0), (3) F08b (/repo 0aeb22c), (4) F08d
+   (/repo 3c03706).  The former refutations are the examples at the end; the oracle classes stay live,
+   so a regression of any guard is a VIOLATION. *)
 From IronCalc Require Import Base.Prelude Eval.NumOps Eval.Value Eval.Coerce Eval.Ops Eval.Funs
   Eval.Eval Eval.Store Eval.StoreProofs Eval.SinkProofs.
 
-(* the property for the two paths a user reaches through formulas and typing: whatever result
-   reaches the sink, and whatever text is typed, a store free of non-finite numbers stays so *)
+(* the property: whatever result reaches the sink, whatever text is typed, whatever float the API is
+   given and whatever a file contains, a store free of non-finite numbers stays so *)
 Definition C08_statement : Prop :=
   forall num (N : NumOps num), nis_finite N (nzero N) = true ->
   (forall c cell r st st', write N c cell r st = Some st' -> finite_store N st -> finite_store N st') /\
-  (forall c t st, finite_store N st -> finite_store N (type_number N c t st)).
+  (forall c t st, finite_store N st -> finite_store N (type_number N c t st)) /\
+  (forall c v st st', api_set_number N c v st = Some st' -> finite_store N st -> finite_store N st') /\
+  (forall c k t st, finite_store N st -> finite_store N (import_cell N c k t st)).
 
 (* THE SINK THEOREM: for EVERY result r, scalar or array, in every branch (scalar, dynamic spill,
    CSE fill, 1x1 coercion).  The one law of the number type: 0 is finite *)
@@ -31,9 +38,32 @@ Theorem C08_typed :
 Proof. exact (@type_number_finite). Qed.
 Print Assumptions C08_typed.
 
+(* the API write: a non-finite value is refused (nothing is written), a finite one stored *)
+Theorem C08_api :
+  forall num (N : NumOps num) c v st st',
+  api_set_number N c v st = Some st' -> finite_store N st -> finite_store N st'.
+Proof. exact (@api_set_number_finite). Qed.
+Print Assumptions C08_api.
+Theorem C08_api_rejects :
+  forall num (N : NumOps num) c v st, nis_finite N v = false -> api_set_number N c v st = None.
+Proof. exact (@api_set_number_rejects). Qed.
+Print Assumptions C08_api_rejects.
+
+(* the importer: the number read from <v> is finite whatever the text, at all three sites *)
+Theorem C08_import_number :
+  forall num (N : NumOps num), nis_finite N (nzero N) = true -> forall t, nis_finite N (import_number N t) = true.
+Proof. exact (@import_number_finite). Qed.
+Print Assumptions C08_import_number.
+Theorem C08_import :
+  forall num (N : NumOps num), nis_finite N (nzero N) = true ->
+  forall c k t st, finite_store N st -> finite_store N (import_cell N c k t st).
+Proof. exact (@import_cell_finite). Qed.
+Print Assumptions C08_import.
+
 (* hence the statement *)
 Theorem C08_holds : C08_statement.
-Proof. exact (fun num N H0 => conj (@write_finite num N H0) (@type_number_finite num N)). Qed.
+Proof. exact (fun num N H0 => conj (@write_finite num N H0) (conj (@type_number_finite num N)
+                (conj (@api_set_number_finite num N) (@import_cell_finite num N H0)))). Qed.
 Print Assumptions C08_holds.
 
 (* the scalar branch alone (the original safety belt) *)
@@ -63,3 +93,9 @@ Example C08_typed_overflow_is_text :
   no_nonfinite_b BOps [A1] (type_number BOps A1 [57;57;57;57;57;57;57] (store_of [])) = true /\
   cont (type_number BOps A1 [57;57] (store_of [])) A1 = CNumber (Some 99).
 Proof. exact typed_overflow_is_text. Qed.
+Example C08_api_import_examples :
+  api_set_number BOps A1 None (store_of []) = None /\
+  cont (import_cell BOps A1 ImpNumberCell (Some [57;57;57;57;57;57;57]) (store_of [])) A1 = CNumber (Some 0) /\
+  cont (import_cell BOps A1 ImpNumberCell (Some [57;57]) (store_of [])) A1 = CNumber (Some 99) /\
+  cont (import_cell BOps A1 ImpNumberCell None (store_of [])) A1 = CNumber (Some 0).
+Proof. exact api_import_examples. Qed.
